@@ -12,6 +12,7 @@
 // q/d: file ids handed to DeleteChunks (queue) / DirectDeleteChunks, in emission order
 // T:   path:kind:tag:chunks:hl:cnt for every stored entry, sorted by path (raw store content, no hard-link overlay)
 // F:   path:kind:tag:chunks:hl:cnt as Filer.FindEntry shows it, for entries whose raw hl is set
+// L:   the same names as Filer.ListDirectoryEntries of their directory shows them
 // K:   hl:kind:tag:chunks:hl:cnt for the KV record of each link identity
 package main
 
@@ -37,6 +38,7 @@ import (
 
 const depthBomb = 40 // no generated case legitimately nests deeper than maxLegitDepth
 const maxLegitDepth = 12
+const maxIds = 4 // link identities 1..4
 
 // vstore delegates to the real leveldb2 store; it records every path written (so that the dump
 // also sees orphans) and panics when a path nests deeper than depthBomb.
@@ -166,7 +168,7 @@ func dump() []string {
 		paths = append(paths, p)
 	}
 	sort.Strings(paths)
-	var T, F, K []string
+	var T, F, L, K []string
 	for _, p := range paths {
 		raw, err := st.FilerStore.FindEntry(ctx, util.FullPath(p))
 		if err != nil || raw == nil {
@@ -180,9 +182,23 @@ func dump() []string {
 			} else {
 				F = append(F, p+":gone")
 			}
+			// the same name as a directory listing shows it
+			pd, name := splitPath(p)
+			listed := false
+			if es, _, err := fl.ListDirectoryEntries(ctx, util.FullPath(pd), name, true, 1, "", "", ""); err == nil {
+				for _, le := range es {
+					if le.Name() == name {
+						L = append(L, entryTok(p, le))
+						listed = true
+					}
+				}
+			}
+			if !listed {
+				L = append(L, p+":gone")
+			}
 		}
 	}
-	for h := 1; h <= 3; h++ {
+	for h := 1; h <= maxIds; h++ {
 		v, err := st.FilerStore.KvGet(ctx, hlKey(h))
 		if err != nil {
 			continue
@@ -201,14 +217,14 @@ func dump() []string {
 		}
 		return strings.Join(xs, ";")
 	}
-	return []string{"T=" + j(T), "F=" + j(F), "K=" + j(K)}
+	return []string{"T=" + j(T), "F=" + j(F), "L=" + j(L), "K=" + j(K)}
 }
 
 func resetStore() {
 	for p := range st.known {
 		st.FilerStore.DeleteEntry(ctx, util.FullPath(p))
 	}
-	for h := 1; h <= 3; h++ {
+	for h := 1; h <= maxIds; h++ {
 		st.FilerStore.KvDelete(ctx, hlKey(h))
 	}
 	st.known = map[string]bool{}
@@ -294,6 +310,15 @@ func exec(w []string) string {
 			if old.IsDirectory() {
 				return "err"
 			}
+			// the checks the kernel's VFS makes before it calls the file system's Link: the new name
+			// does not exist (EEXIST) and its directory does
+			if e, _ := fl.FindEntry(ctx, util.FullPath(arg(1))); e != nil {
+				return "err"
+			}
+			pd, _ := splitPath(arg(1))
+			if d, _ := fl.FindEntry(ctx, util.FullPath(pd)); d == nil || !d.IsDirectory() {
+				return "err"
+			}
 			upd := &filer.Entry{FullPath: old.FullPath, Attr: old.Attr, Chunks: old.Chunks, Extended: old.Extended, HardLinkId: old.HardLinkId, HardLinkCounter: old.HardLinkCounter}
 			if len(upd.HardLinkId) == 0 {
 				upd.HardLinkId = hlKey(atoi(arg(2)))
@@ -372,11 +397,11 @@ var alphabet = [][]string{
 	{"create", "/b", "d", "9", "-", "0", "0", "1"},
 	{"write", "/a/b/c", "3", "APPEND"},
 	{"write", "/d", "4", "FRESH"},
-	{"update", "/a/b/c", "f", "5", "FRESH", "0", "0"},
+	{"update", "/a/b/c", "f", "5", "FRESH", "HL", "CNT"},
 	{"update", "/a", "f", "5", "-", "0", "0"},
-	{"link", "/a/b/c", "/d", "1"},
-	{"link", "/d", "/b/c", "1"},
-	{"link", "/a/c", "/a/b/c", "2"},
+	{"link", "/a/b/c", "/d", "NEWID"},
+	{"link", "/d", "/b/c", "NEWID"},
+	{"link", "/a/c", "/b", "NEWID"},
 	{"unlink", "/d"},
 	{"unlink", "/a/b/c"},
 	{"delete", "/a", "0", "0", "1"},
@@ -401,12 +426,45 @@ var alphabet = [][]string{
 	{"rename", "/a/b/c", "/a/c"},
 }
 
+// unusedId picks a link identity that no stored entry and no record uses (real ids are 16 random
+// bytes and never collide); 0 when all are taken
+func unusedId() int {
+	used := map[string]bool{}
+	for p := range st.known {
+		if e, err := st.FilerStore.FindEntry(ctx, util.FullPath(p)); err == nil && e != nil && len(e.HardLinkId) != 0 {
+			used[hlTok(e.HardLinkId)] = true
+		}
+	}
+	for h := 1; h <= maxIds; h++ {
+		if _, err := st.FilerStore.KvGet(ctx, hlKey(h)); err == nil {
+			used[strconv.Itoa(h)] = true
+		}
+	}
+	for h := 1; h <= maxIds; h++ {
+		if !used[strconv.Itoa(h)] {
+			return h
+		}
+	}
+	return 0
+}
+
 func (g *gen) concrete(w []string) []string {
 	out := append([]string{}, w...)
 	for i, x := range out {
 		switch x {
 		case "FRESH":
 			out[i] = g.fresh()
+		case "HL", "CNT": // a client updates the entry it loaded: the link identity travels with it
+			out[i] = "0"
+			if e, err := fl.FindEntry(ctx, util.FullPath(w[1])); err == nil && e != nil {
+				if x == "HL" {
+					out[i] = hlTok(e.HardLinkId)
+				} else {
+					out[i] = strconv.Itoa(int(e.HardLinkCounter))
+				}
+			}
+		case "NEWID":
+			out[i] = strconv.Itoa(unusedId())
 		case "APPEND":
 			cur := "-"
 			if e, err := fl.FindEntry(ctx, util.FullPath(w[1])); err == nil && e != nil {
@@ -536,9 +594,17 @@ func (g *gen) randomOp() []string {
 		if kind == "f" {
 			ch = g.someChunks(p)
 		}
-		return []string{"update", p, kind, tag, ch, "0", "0"}
+		// a client updates the entry it loaded: the link identity travels with it
+		hl, cnt := "0", "0"
+		if e, err := fl.FindEntry(ctx, util.FullPath(p)); err == nil && e != nil {
+			hl, cnt = hlTok(e.HardLinkId), strconv.Itoa(int(e.HardLinkCounter))
+		}
+		return []string{"update", p, kind, tag, ch, hl, cnt}
 	case x < 58:
-		return []string{"link", g.pickPath(files), g.r.Pick(universe), strconv.Itoa(1 + g.r.Intn(2))}
+		if id := unusedId(); id != 0 {
+			return []string{"link", g.pickPath(files), g.r.Pick(universe), strconv.Itoa(id)}
+		}
+		return []string{"unlink", g.pickPath(files)}
 	case x < 66:
 		return []string{"unlink", g.pickPath(files)}
 	case x < 80:
